@@ -26,6 +26,21 @@ def generate(tier, rng):
             seen.add(t)
             out.append("RT %s %s" % (key, t))
             if len(seen) % 4 == 0: out.append("PFX %s %s" % (key, t))
+    # large values: element counts and byte lengths around 2^16 (3-byte -> 5-byte heads; counters that are narrower than usize)
+    def big(key, v):
+        d = tg.parse_desc(key)
+        out.append("RT %s %s" % (key, tg.show(d, tg.rust_order(d, v))))
+    for n in (65535, 65536, 70000):
+        big("bytevec", bytes((i * 13) & 0xff for i in range(n)))
+        big("string", (b"ab\xc3\xa9" * (n // 4 + 1))[: n - (n % 4)] + b"x" * (n % 4))
+    # element counts: the extracted model is quadratic in the number of elements (83 s for 2^16), so the quick tier stays below
+    # and the thorough tier crosses the 2^16 boundary once per shape
+    for n in ((300, 5000) if tier != "thorough" else (300, 5000, 65535, 65536)):
+        big("seq(u8)", [(i * 7) & 0xff for i in range(n)])
+        big("deque(i32)", [i - 1000 for i in range(n)])
+        big("seq(opt(u16))", [None if i % 5 == 0 else ("some", i & 0xffff) for i in range(n)])
+        big("hmap(u16,bool)", [(i, i % 3 == 0) for i in range(n)])
+        big("bset(i16)", [i - 32768 for i in range(n)])
     return out
 
 def nontrivial(line, impl):
